@@ -40,8 +40,15 @@ def handle (op : String) (a r : Json) : Except String Reply := do
     let bErr := (getStr r "b_werr").toOption.getD ""
     let timeout := (optField r "timeout").isSome
     let emptyDial := a2b == 0
+    let altPath := (getBool a "alt_path").toOption.getD false
+    let routeErr (e : String) : Bool := (e.splitOn "no connection to next hop").length > 1 || (e.splitOn "no route to node").length > 1 || (e.splitOn "connInfo cancelled").length > 1
+      || (e.splitOn "stateless reset").length > 1   -- the peer gave the connection up for the same reason
+    let rerouteAbort := altPath && (routeErr aErr || routeErr bErr)
     let (holds, why, sig) : Bool × String × String :=
       if timeout then (false, s!"the transfer did not finish (received so far: {aGot} of {b2a} and {bGot} of {a2b})", "C03/transfer-stuck")
+      else if rerouteAbort then
+        (false, s!"while the route changed to the other path a datagram could not be sent for a moment; the error went to the QUIC layer, which aborted the connection ({aErr}{bErr})",
+         "C03/reroute-error-aborts-stream")
       else if aBad ≥ 0 || bBad ≥ 0 then (false, s!"a received byte differs from the byte written at that position (first at {max aBad bBad})", "C03/bytes-altered")
       else if bridged && duplex && (aGot < b2a || bGot < a2b) then
         (false, s!"behind the bridges the direction still being written was cut when the other direction ended: {aGot} of {b2a} and {bGot} of {a2b} bytes arrived ({aErr}{bErr})",
@@ -55,6 +62,7 @@ def handle (op : String) (a r : Json) : Except String Reply := do
     -- what the source as it is does in the two situations the specification forbids (so that the model agrees with it):
     let m' :=
       if emptyDial && !byteWithEofAccepted && bErr.startsWith "accept:" then r   -- refused, as the source's accept loop does
+      else if rerouteAbort then r   -- PacketConn.WriteTo hands the routing error to quic-go, which gives the connection up
       else if bridged && duplex && Receptor.Facts.bridge_loop.endsWith "shouldClose:close(c2),return" && (aGot < b2a || bGot < a2b) && aBad < 0 && bBad < 0 then
         r   -- the relay closes its destination completely: how much of the other direction got through is a matter of timing
       else m
